@@ -251,8 +251,11 @@ def m4_literals(ctx):
     b = ctx.facts.one(r'^tokinizer::tools::read_currency$')
     ctx.fn(b)
     alts = [(render(a), [cond_str(d, v) for d, v in c]) for a, c in alternatives(b, b.local_expr(0))]
-    alias_first = any('config.currency_alias, str::to_lowercase(currency)) as Some.0' in a and any('currency_alias' in x and x.endswith('=[1]') for x in cs) for a, cs in alts)
-    code_second = any(a.startswith('BTreeMap::get(config.currency, str::to_lowercase(currency))') and any('currency_alias' in x for x in cs) for a, cs in alts)
+    A = 'BTreeMap::get(config.currency_alias, str::to_lowercase(currency))'
+    C = 'BTreeMap::get(config.currency, str::to_lowercase(currency))'
+    # however it is written (match, or_else, if let): the alias hit is returned when the alias lookup is Some, the code lookup otherwise
+    alias_first = any(A in a and C not in a and any(x == 'discr(%s)=[1]' % A for x in cs) for a, cs in alts)
+    code_second = any(C in a and A not in a and any(x in ('discr(%s)=[0]' % A, 'discr(%s)!=[1]' % A) for x in cs) for a, cs in alts)
     if alias_first and code_second and len(alts) == 2:
         ctx.ok('M4', 'read_currency: alias table first, then code table, both keyed by the lower-cased name', 'gamma', site=b.loc)
     else:
